@@ -45,8 +45,10 @@ Lemma E_new_entry a v :
   EInv a -> EInv (fst (new_entry a v)) /\ snd (new_entry a v) < length (a_entries (fst (new_entry a v)))
             /\ length (a_entries a) <= length (a_entries (fst (new_entry a v))).
 Proof.
-  intros HE. unfold new_entry. cbn [fst snd push_entry push_value a_entries]. rewrite app_length. cbn [length].
-  split; [|lia]. apply (E_same a); [reflexivity | cbn [a_entries]; rewrite ?app_length; lia | exact HE].
+  intros HE.
+  assert (L : length (a_entries (fst (new_entry a v))) = S (length (a_entries a))).
+  { unfold new_entry. cbn [fst push_entry push_value a_entries]. rewrite app_length. cbn. lia. }
+  split; [apply (E_same a); [reflexivity | lia | exact HE]|]. rewrite L. unfold new_entry. cbn [snd]. lia.
 Qed.
 
 Lemma E_set_entry_value a e v : EInv a -> EInv (a_set_entry_value a e v).
